@@ -1,12 +1,12 @@
 #!/bin/sh
 # Build the framework from files on disk only (offline): full .vo build of the Coq development
-# and the correspondence harness against /repo's working tree.
+# and every correspondence harness binary against /repo's working tree.
 set -e
 cd "$(dirname "$0")"
 export CARGO_NET_OFFLINE=true
 mkdir -p .work evidence replays
-[ -f tools/rs2v.py ] && python3 tools/rs2v.py
-( cd coq && coq_makefile -f _CoqProject -o Makefile.coq >/dev/null && timeout 3000 make -f Makefile.coq -j16 ) 
+python3 -c "import sys; sys.path.insert(0,'lib'); import vlib; vlib.run_gen(); vlib.write_coq_project()"
+( cd coq && coq_makefile -f _CoqProject -o Makefile.coq >/dev/null && timeout 3400 make -f Makefile.coq -j16 )
 cp /repo/Cargo.lock harness/Cargo.lock
-( cd harness && timeout 3400 cargo build --offline --quiet )
+( cd harness && timeout 3400 cargo build --offline --quiet --bins 2>&1 | grep -v "^warning\|^ *|\|^ *-->\|^ *=\|^$" | tail -20 ; test -x target/debug/c12 )
 echo setup-ok
